@@ -109,6 +109,7 @@ class Scheduler(object):
         self.internal_error = None
         self.lock_edges = set()         # lock-order graph edges (site_a, site_b)
         self.abstract = None            # optional harness callback for fingerprints
+        self.forced = False             # set-up phase: default choice everywhere, nothing recorded
         self.n_points = 0
         self.waitfor = []
         self.lh = 0                     # incremental hash of thread locations
@@ -301,7 +302,7 @@ class Scheduler(object):
             if cand:
                 jumpable = min(cand, key=lambda t: (t.deadline, t.idx))
         total = n_en + (1 if jumpable is not None else 0)
-        if total == 1:
+        if total == 1 or self.forced:
             return enabled[0]
         c = self._choose(total, enabled[0] is cur and not cur.finished, cur)
         if c < n_en:
